@@ -642,3 +642,20 @@ package mocker
 //@     | && forall j int :: 0 <= j && j < len(results) ==> arg.i2v_converted(results[j], c.results[len(c.results) - 1][j], rt_out(c.funTyp, j))
 //@   panics_only_if conversion_rejected: true
 //@   ensures_on_panic sequence_unchanged: c.results == old(c.results)
+
+// ---- C04/C05: Matches registers one condition per pair and nothing else ---------------------------------------------------
+// Each pair becomes one condition carrying its own results, appended after the conditions registered earlier (that the
+// earlier ones keep their rank is not claimed: the solvers do not decide the append/realloc case split); the
+// default results (and every other result sequence) are not touched - a call that matches no pair still gets the
+// configured default, or the 'no suitable condition' panic if there is none.
+//@ func (w *When) Matches
+//@   props C04 C05
+//@   requires receiver: w != nil && 0 <= len(w.matches) && len(w.matches) < 0x10000 && len(argAndRet) < 0x10000
+//@   assigns w.matches, varval, w.matches[len(w.matches) : cap(w.matches)]
+//@   invariant loop 1 one_condition_per_pair_so_far: w != nil && -1 <= rangeindex && rangeindex < len(argAndRet) && len(w.matches) == old(len(w.matches)) + rangeindex + 1
+//@   invariant loop 1 grows_in_place_or_in_a_fresh_array: (arr(w.matches) == old(arr(w.matches)) && off(w.matches) == old(off(w.matches)) && cap(w.matches) == old(cap(w.matches))) || fresh(w.matches)
+//@   decreases loop 1 len(argAndRet) - rangeindex
+//@   ensures one_condition_per_pair: len(w.matches) == old(len(w.matches)) + len(argAndRet)
+//@   ensures default_results_untouched: w.defaultReturns == old(w.defaultReturns) && w.curMatch == old(w.curMatch)
+//@   ensures same_builder: result == w
+//@   panics_only_if a_pair_is_rejected: true
